@@ -137,9 +137,9 @@ func parseSpec(s string) (e *SExpr, err error) {
 
 type parseErr string
 
-func (p *sparser) fail(m string)   { panic(parseErr(m)) }
-func (p *sparser) peek() tok       { return p.toks[p.p] }
-func (p *sparser) next() tok       { t := p.toks[p.p]; p.p++; return t }
+func (p *sparser) fail(m string)      { panic(parseErr(m)) }
+func (p *sparser) peek() tok          { return p.toks[p.p] }
+func (p *sparser) next() tok          { t := p.toks[p.p]; p.p++; return t }
 func (p *sparser) isOp(v string) bool { t := p.peek(); return t.k == "op" && t.v == v }
 func (p *sparser) expect(v string) {
 	if !p.isOp(v) {
@@ -340,20 +340,20 @@ type Clause struct {
 	Label string   // optional label (name after kind: ensures[C16] "len": ...)
 	Text  string
 	Expr  *SExpr
-	Scope string // "" (function) or "loop#i" / "lit#i"
-	Where string // file:line
+	Scope string   // "" (function) or "loop#i" / "lit#i"
+	Where string   // file:line
 	Names []string // for modifies/borrows etc: identifiers
 }
 
 type Contract struct {
-	Key      string // "Skip" or "Ring.Put"
-	Pkg      string
-	Clauses  []*Clause
-	Trusted  bool
-	Pure     bool
-	Inline   bool
-	Where    string
-	Attrs    map[string]string
+	Key     string // "Skip" or "Ring.Put"
+	Pkg     string
+	Clauses []*Clause
+	Trusted bool
+	Pure    bool
+	Inline  bool
+	Where   string
+	Attrs   map[string]string
 }
 
 func (c *Contract) byKind(kind, scope string) []*Clause {
